@@ -59,15 +59,37 @@ static void *c01_memset(void *d, int c, size_t n);
  * are turned into a "crash" clause of the current case and enumeration continues. */
 #define NSLOTS 12
 static bn_p slot[NSLOTS];
+static int g_crashed = 0;
 static sigjmp_buf g_jb;
 static volatile sig_atomic_t g_armed = 0;
 static volatile int g_sig = 0;
 
+/* Byte buffers handed to the library (export output, NAF/JSF arrays, import input) end exactly at a
+ * PROT_NONE page as well: the first byte written or read past the stated size faults, nothing else is damaged. */
+#define GBUF_MAX 8192
+static uint8_t *gbuf_end[2];	/* [0] output, [1] input: address of the guard page */
+static volatile uintptr_t g_fault_addr = 0;
+static long g_pagesz = 4096;
+static uint8_t *
+gbuf(int which, size_t size) { return (gbuf_end[which] - size); }
+/* operands of the library call in flight, for the messages of crash_report()/wild_size() */
+static const R *g_cur_a = NULL, *g_cur_b = NULL;
+static size_t g_cur_k = 0;
+static char g_hxa[300], g_hxb[300];
+static const char *
+cur_operands(char *buf, size_t n) {
+	snprintf(buf, n, "[a=0x%s b=0x%s k=%zu]", g_cur_a ? r_hex(g_cur_a, g_hxa, sizeof(g_hxa)) : "-",
+	    g_cur_b ? r_hex(g_cur_b, g_hxb, sizeof(g_hxb)) : "-", g_cur_k);
+	return (buf);
+}
+
 static void
-on_fault(int sig) {
+on_fault(int sig, siginfo_t *si, void *ctx) {
+	(void)ctx;
 	if (g_armed) {
 		g_armed = 0;
 		g_sig = sig;
+		g_fault_addr = (uintptr_t)si->si_addr;
 		siglongjmp(g_jb, 1);
 	}
 	signal(sig, SIG_DFL);
@@ -86,9 +108,17 @@ arena_init(void) {
 		mprotect(m + span, (size_t)pg, PROT_NONE);
 		slot[i] = (bn_p)(void *)(m + span - sizeof(bn_t));
 	}
+	g_pagesz = pg;
+	for (i = 0; i < 2; i ++) {
+		uint8_t *m = (uint8_t *)mmap(NULL, GBUF_MAX + (size_t)pg, PROT_READ | PROT_WRITE,
+		    MAP_PRIVATE | MAP_ANONYMOUS, -1, 0);
+		if (MAP_FAILED == m) { perror("mmap"); exit(2); }
+		mprotect(m + GBUF_MAX, (size_t)pg, PROT_NONE);
+		gbuf_end[i] = m + GBUF_MAX;
+	}
 	memset(&sa, 0, sizeof(sa));
-	sa.sa_handler = on_fault;
-	sa.sa_flags = SA_NODEFER;
+	sa.sa_sigaction = on_fault;
+	sa.sa_flags = SA_NODEFER | SA_SIGINFO;
 	sigaction(SIGSEGV, &sa, NULL);
 	sigaction(SIGBUS, &sa, NULL);
 	sigaction(SIGFPE, &sa, NULL);
@@ -99,18 +129,24 @@ arena_init(void) {
 	if (0 == sigsetjmp(g_jb, 0)) { g_armed = 1; stmt; g_armed = 0; }	\
 	else { crash_report(); }						\
 } while (0)
-static int g_crashed = 0;
 static void
 crash_report(void) {
+	char ob[700];
 	if (g_crashed) return;	/* wild size already reported */
 	g_crashed = 1;
-	vh_fail("fault-signal", "signal %d inside the library call", g_sig);
+	cur_operands(ob, sizeof(ob));
+	if (g_fault_addr >= (uintptr_t)gbuf_end[0] && g_fault_addr < (uintptr_t)gbuf_end[0] + (uintptr_t)g_pagesz)
+		vh_fail("output-buffer-overflow", "the library wrote %lu byte(s) past the end of the caller's buffer %s", (unsigned long)(g_fault_addr - (uintptr_t)gbuf_end[0]) + 1, ob);
+	else if (g_fault_addr >= (uintptr_t)gbuf_end[1] && g_fault_addr < (uintptr_t)gbuf_end[1] + (uintptr_t)g_pagesz)
+		vh_fail("input-buffer-overread", "the library read past the end of the caller's input buffer %s", ob);
+	else
+		vh_fail("fault-signal", "signal %d inside the library call %s", g_sig, ob);
 }
 
 static void
 wild_size(const char *fn, size_t n) {
-	if (0 == vh_case_failed || 1)
-		vh_fail("wild-mem-size", "%s called with size %zu (size_t wrap-around) inside the library call", fn, n);
+	char ob[700];
+	vh_fail("wild-mem-size", "%s called with size %zu (size_t wrap-around) inside the library call %s", fn, n, cur_operands(ob, sizeof(ob)));
 	g_crashed = 1;
 	if (g_armed) { g_armed = 0; siglongjmp(g_jb, 2); }
 	abort();
@@ -119,6 +155,36 @@ wild_size(const char *fn, size_t n) {
 static void *c01_memmove(void *d, const void *s, size_t n) { if (n > WILD) wild_size("memmove", n); return (memmove(d, s, n)); }
 static void *c01_memcpy(void *d, const void *s, size_t n) { if (n > WILD) wild_size("memcpy", n); return (memcpy(d, s, n)); }
 static void *c01_memset(void *d, int c, size_t n) { if (n > WILD) wild_size("memset", n); return (memset(d, c, n)); }
+
+/* ------------------------------------------------------------------ deterministic "uninitialised" stack
+ * The library's temporaries (bn_t tmp on the stack, bn_assign_init copies only `digits` digits) are stale storage
+ * too.  Before every library call the stack region below the caller is painted with the current stale pattern, so a
+ * read of an uninitialised temporary digit behaves like a read of stale operand storage: deterministic, and different
+ * between the 0xA5 and the 0x00 run.  This needs the real stack: ASan's fake stack (detect_stack_use_after_return,
+ * switched on in vh.h) is switched off by re-executing with ASAN_OPTIONS once (also under --only replays). */
+#define PAINT_BYTES (72 * sizeof(bn_t))
+static __attribute__((noinline)) void
+paint_stack(uint8_t fill) {
+	volatile uint8_t area[PAINT_BYTES];
+	memset((void *)area, fill, sizeof(area));
+	__asm__ volatile ("" : : "r"(area) : "memory");
+}
+static void
+reexec_without_fake_stack(char **argv) {
+#ifdef VH_HAS_ASAN
+	const char *cur = getenv("ASAN_OPTIONS");
+	char buf[1024];
+	if (NULL != getenv("C01_REEXEC")) return;
+	snprintf(buf, sizeof(buf), "%s%sdetect_stack_use_after_return=0", cur ? cur : "", cur ? ":" : "");
+	setenv("ASAN_OPTIONS", buf, 1);
+	setenv("C01_REEXEC", "1", 1);
+	execv("/proc/self/exe", argv);
+	perror("execv");	/* fall through: run anyway */
+#else
+	(void)argv;
+#endif
+}
+#define NOINLINE __attribute__((noinline))
 
 /* ------------------------------------------------------------------ self-imposed deadline
  * C01_DEADLINE=<unix time>: after it every remaining case is counted as skipped (NOTE deadline_skipped)
@@ -406,6 +472,7 @@ refcheck_dump(void) {
 int
 main(int argc, char **argv) {
 	int i;
+	reexec_without_fake_stack(argv);
 	vh_init(argc, argv);
 	vsets_init();
 	for (i = 1; i < argc; i ++) {
